@@ -595,6 +595,12 @@ def mon_c13(run, case, stmts):
             cands = [q for q in polls if q["clk"] < rec["clk"] and "state_out" in q]
             return cands[-1] if cands else None
 
+        raised = [o for o in run.obs if o["path"] == p and o["kind"] == "wfcond" and o["out"] == "exc" and o["exc"] not in INVOCATION_ERRORS and "Deserialization failed" not in (o.get("msg") or "")]
+        if raised:
+            later = [q for q in polls if q["clk"] > raised[0]["clk"]]
+            if later:
+                run.v("C13", "polled_after_error_delivered", "check", f"{p}: the call raised {raised[0]['exc']}({raised[0]['msg'][:60]!r}) in invocation {raised[0]['inv']}, "
+                                                                      f"yet the check function was called again in invocation {later[0]['inv']}")
         for i, pl in enumerate(polls):
             state_in = from_tagged(pl["state_in"])
             if any(e["clk"] < pl["clk"] for e in ends):
